@@ -129,7 +129,7 @@ func checkC16(c *vlib.Ctx) {
 		return
 	}
 	workers := 4
-	n := c.N(85, 9000)
+	n := c.N(85, 1200)
 	var wg sync.WaitGroup
 	for w := 0; w < workers; w++ {
 		wg.Add(1)
@@ -139,7 +139,7 @@ func checkC16(c *vlib.Ctx) {
 		}(w)
 	}
 	wg.Wait()
-	c.Floor(c.N(300, 20000))
+	c.Floor(c.N(300, 3000))
 }
 
 // hdrPlan: the header settings one text is sent under, in order. Bare-name texts are
